@@ -35,6 +35,9 @@ type c08Plan struct {
 	Chunks   []int `json:"chunks"`   // poll batching of the rebuilt node
 	Restarts []int `json:"restarts"` // the rebuilt node is restarted after these chunks
 	Ignore   []int `json:"ignore"`   // R2 via resetState: board indices (mod) to ignore by id
+	// LateDays > 0: the rebuilds from the log (R2..R4) happen that many days after the ceremony (every node process
+	// stopped meanwhile): the state is a function of the log, not of when the log is consumed
+	LateDays int `json:"late_days,omitempty"`
 }
 
 func c08Gen(rt *rapid.T) c08Plan {
@@ -43,7 +46,8 @@ func c08Gen(rt *rapid.T) c08Plan {
 		Tape: rapid.SliceOfN(rapid.IntRange(0, 1000), 0, 80).Draw(rt, "tape"), Faults: rapid.IntRange(1, 6).Draw(rt, "faults"), Batch: rapid.Bool().Draw(rt, "batch"),
 		Prefix: rapid.IntRange(0, 1000).Draw(rt, "prefix"), NodeA: rapid.IntRange(0, nt[0]-1).Draw(rt, "a"), NodeB: rapid.IntRange(0, nt[0]-1).Draw(rt, "b"),
 		Chunks: rapid.SliceOfN(rapid.IntRange(1, 9), 1, 12).Draw(rt, "chunks"), Restarts: rapid.SliceOfN(rapid.IntRange(0, 11), 0, 2).Draw(rt, "restarts"),
-		Ignore: rapid.SliceOfN(rapid.IntRange(0, 1000), 0, 2).Draw(rt, "ignore")}
+		Ignore:   rapid.SliceOfN(rapid.IntRange(0, 1000), 0, 2).Draw(rt, "ignore"),
+		LateDays: rapid.SampledFrom([]int{0, 0, 0, 1, 8, 60}).Draw(rt, "lateDays")}
 }
 
 // crossNodeView projects a node's dump of a round to what every node must agree on (time-free, without private deals).
@@ -402,6 +406,15 @@ func c08Run(t *testing.T, st *vstat.Stats, p c08Plan) (v *viol) {
 				v = violf("prefix-nodes-disagree", "after the same %d-message prefix, identities %d (chunks %v) and %d (one poll) differ on round %s: %s vs %s", k, p.NodeA, p.Chunks, p.NodeB, rd[:8], clip(a, 300), clip(b, 300))
 				return
 			}
+		}
+		if p.LateDays > 0 {
+			ra.close()
+			rb.close()
+			if err := w.Age(time.Duration(p.LateDays) * 24 * time.Hour); err != nil {
+				v = violf("harness", "restart after %d days: %v", p.LateDays, err)
+				return
+			}
+			st.Class(fmt.Sprintf("rebuilt-%d-days-later", p.LateDays))
 		}
 		// R2: rebuilt from an empty state with any batching and restarts == live node (full time-free dump, signatures, offset)
 		rr, err := newReplayer(w, p.NodeA, log, root, "full")
